@@ -367,7 +367,10 @@ def shard(ctx):
         rng = ctx.rng('negra', i)
         mix = rng.choice([['HD', 'NK', 'SB', '--'], ['NK', 'SB', 'MO', '--'],
                           ['SB', 'OA', '--'], ['HD', 'HD', 'NK', 'NK', 'SB'],
-                          edges])
+                          edges,
+                          # the edge labels are HD and NK, spelled like that
+                          ['HD', 'hd', 'Hd', 'NK', 'nk', 'SB'],
+                          ['hd', 'nk', 'MO', '--', 'HDX', 'XNK']])
         pools = gen.Pools(edges=mix)
         spec = gen.tree(rng, rng.randint(1, 30), pools,
                         max_arity=rng.choice([2, 4, 7]),
